@@ -75,6 +75,107 @@ def subst (ρ : Binding) : Tmpl → Option Sexp
     | some [v] => some v
     | _ => none
 
+/-! ### Every evaluation builds fresh containers
+"A syntax-quoted template evaluates to exactly the template with …" holds for **every**
+evaluation of the template, whatever the program did with the results of earlier evaluations.
+Lists are immutable, arrays and hashes are not (`aset`, `hset`): so the arrays and hashes a
+template is written with have to be built anew by each evaluation. Stated as a history: the same
+template is evaluated once per element of `μs`; after each evaluation the program mutates, in
+place and innermost first, every container the template itself built (the containers inside
+the *values* of unquoted expressions are the program's own objects and are shared, as values
+are). Every evaluation must still yield the substitution, and each result must end as the
+substitution changed by its own mutation only. -/
+
+/-- What an in-place mutation does to an array (given by its elements) and to a hash. -/
+structure Mutation where
+  arr : List Sexp → List Sexp
+  hash : Sexp → Sexp
+
+mutual
+/-- `items` after the containers built by the template were mutated by `μ`, innermost first -/
+def itemsMut (ρ : Binding) (μ : Mutation) : Tmpl → Option (List Sexp)
+  | .lit a => some [.atom a]
+  | .unquote e => (ρ.value e).map (fun v => [v])
+  | .splice e => (ρ.value e).bind elems
+  | .list ts => (itemsLMut ρ μ ts).map (fun xs => [ofList xs])
+  | .arr ts => (itemsLMut ρ μ ts).map (fun xs => [.arr (ofList (μ.arr xs))])
+  | .hash ty kvs => (itemsKVMut ρ μ kvs).bind (fun xs => (ρ.mkHash ty xs).map (fun h => [μ.hash h]))
+def itemsLMut (ρ : Binding) (μ : Mutation) : List Tmpl → Option (List Sexp)
+  | [] => some []
+  | t :: ts => do
+    let a ← itemsMut ρ μ t
+    let b ← itemsLMut ρ μ ts
+    some (a ++ b)
+def itemsKVMut (ρ : Binding) (μ : Mutation) : List (Tmpl × Tmpl) → Option (List Sexp)
+  | [] => some []
+  | (k, v) :: r => do
+    let a ← itemsMut ρ μ k
+    let b ← itemsMut ρ μ v
+    let c ← itemsKVMut ρ μ r
+    some (a ++ b ++ c)
+end
+
+/-- the value of `^t` after the program mutated the containers the template built -/
+def substMut (ρ : Binding) (μ : Mutation) : Tmpl → Option Sexp
+  | .splice _ => none
+  | t => match itemsMut ρ μ t with
+    | some [v] => some v
+    | _ => none
+
+/-- One evaluation per mutation: what each evaluation yields, and what each result has
+become at the end. Earlier mutations do not show in later evaluations. -/
+def history (ρ : Binding) (μs : List Mutation) (t : Tmpl) : Option (List Sexp × List Sexp) :=
+  (subst ρ t).bind (fun v => (μs.mapM (fun μ => substMut ρ μ t)).map (fun fs => (μs.map (fun _ => v), fs)))
+
+mutual
+/-- The containers one evaluation of `t` has to build, innermost first: one per array / hash
+sub-template (none for the values of unquoted expressions). -/
+def built (ρ : Binding) : Tmpl → Option (List Sexp)
+  | .lit _ => some []
+  | .unquote _ => some []
+  | .splice _ => some []
+  | .list ts => builtL ρ ts
+  | .arr ts => do
+    let b ← builtL ρ ts
+    let xs ← itemsL ρ ts
+    some (b ++ [.arr (ofList xs)])
+  | .hash ty kvs => do
+    let b ← builtKV ρ kvs
+    let xs ← itemsKV ρ kvs
+    let h ← ρ.mkHash ty xs
+    some (b ++ [h])
+def builtL (ρ : Binding) : List Tmpl → Option (List Sexp)
+  | [] => some []
+  | t :: ts => do
+    let a ← built ρ t
+    let b ← builtL ρ ts
+    some (a ++ b)
+def builtKV (ρ : Binding) : List (Tmpl × Tmpl) → Option (List Sexp)
+  | [] => some []
+  | (k, v) :: r => do
+    let a ← built ρ k
+    let b ← built ρ v
+    let c ← builtKV ρ r
+    some (a ++ b ++ c)
+end
+
+mutual
+/-- number of array / hash sub-templates -/
+def Tmpl.containers : Tmpl → Nat
+  | .lit _ => 0
+  | .unquote _ => 0
+  | .splice _ => 0
+  | .list ts => containersL ts
+  | .arr ts => containersL ts + 1
+  | .hash _ kvs => containersKV kvs + 1
+def containersL : List Tmpl → Nat
+  | [] => 0
+  | t :: ts => t.containers + containersL ts
+def containersKV : List (Tmpl × Tmpl) → Nat
+  | [] => 0
+  | (k, v) :: r => k.containers + v.containers + containersKV r
+end
+
 /-! ### How a template is written down
 The reader turns `~e` into `(unquote e)` and `~@e` into `(unquote-splicing e)`
 (parser.go, TokenTilde / TokenTildeAt); a hash literal holds its keys in order. -/
